@@ -408,8 +408,8 @@ theorem C16_reentrant (ext : Ext) (s : AggStage) (old : LiveState) (t : Table) :
     | panic p => simp [sndR]
     | unmodelled w => simp [sndR]
   | sort cols dir =>
-    simp only [liveStage, applyStage]
-    split <;> simp [sndR]
+    simp only [liveStage]
+    cases applyStage ext (.sort cols dir) t <;> simp [sndR]
   | adapt op =>
     simp only [liveStage, applyStage]
     cases adaptTable ext op t <;> simp [sndR]
